@@ -243,3 +243,61 @@ Definition compute_features (pcs_of : list (list (list R)) -> list (list (list R
   let pcs := pcs_of w in
   if negb (length pcs =? 3)%nat then None else project nsamp nc pcs w.
 End Project.
+
+(* ---------- stage 3 additions ---------- *)
+
+(* dtype of the lookup table of _index_of.  [tmp = np.zeros(m + 1, dtype=int)] holds the positions
+   0 .. len(lookup)-1 and the -1 of its last cell; with a narrower integer dtype the values assigned to
+   the table are cast (wrap-around of a two's-complement type of [bits] bits).  [index_of_dt id] is
+   [index_of]; C06_index_of_dtype states when a narrower table is harmless. *)
+Definition wrap (bits : Z) (x : Z) : Z := (x + 2 ^ (bits - 1)) mod 2 ^ bits - 2 ^ (bits - 1).
+
+Definition index_table_dt (cast : Z -> Z) (lookup : list Z) : option (list Z) :=
+  let len := zmax1 lookup + 1 + 1 in
+  if len <? 0 then None else
+  match norm_idx len (-1), omap (norm_idx len) lookup with
+  | Some p, Some ps =>
+      Some (scatter (upd (repeat 0 (Z.to_nat len)) p (cast (-1))) (combine ps (map cast (arange (length lookup)))))
+  | _, _ => None
+  end.
+Definition index_of_dt (cast : Z -> Z) (arr lookup : list Z) : option (list Z) :=
+  match index_table_dt cast lookup with
+  | Some tmp => py_gather tmp arr
+  | None => None
+  end.
+
+(* A session on ONE model object: the two accessors called any number of times, in any order.  The
+   accessors read self.sparse_features / self.sparse_template_features / self.spike_templates and write
+   nothing, so the answer to a call is a function of the dataset and of that call alone. *)
+Section Session.
+Context {A : Type}.
+Variables (zero nanc : A).
+
+Inductive call :=
+| CallF (ids chans : list Z)        (* m.get_features(ids, chans) *)
+| CallT (ids : list Z).             (* m.get_template_features(ids) *)
+
+Record dataset := mkdataset {
+  ds_f : option (@store A * nat);     (* pc feature store and its n_loc; None = no pc_features.npy *)
+  ds_t : option (@store A * nat);     (* template feature store; None = no template_features.npy *)
+  ds_stpl : list Z;                   (* spike_templates *)
+  ds_nt : nat                         (* n_templates *)
+}.
+
+(* None = the accessor returns Python's None (no such store) *)
+Definition answer (ds : dataset) (c : call) : option (res (list (list A))) :=
+  match c with
+  | CallF ids chans =>
+      match ds_f ds with
+      | Some (st, n_loc) => Some (get_features zero nanc st n_loc (ds_stpl ds) ids chans)
+      | None => None
+      end
+  | CallT ids =>
+      match ds_t ds with
+      | Some (st, n_loc) => Some (get_template_features zero nanc st n_loc (ds_stpl ds) ids (ds_nt ds))
+      | None => None
+      end
+  end.
+Definition session (ds : dataset) (calls : list call) : list (option (res (list (list A)))) :=
+  map (answer ds) calls.
+End Session.
